@@ -11,6 +11,7 @@ import (
 	"os"
 	"os/exec"
 	"path/filepath"
+	"regexp"
 	"sort"
 	"strconv"
 	"strings"
@@ -37,6 +38,7 @@ type Engine struct {
 	monitors      []*Monitor
 	droppedCand   map[string]map[string]bool
 	mutableGlobal map[*ssa.Global]bool
+	structInvs    []*StructInv
 	owned         map[string]string // "pkg.Type" -> ghost field that must be 1 to touch the object
 	views         map[string]map[string]*Contract
 	viewList      []*Contract
@@ -99,6 +101,9 @@ func loadEngine(repoDir string, pkgPaths []string) (*Engine, error) {
 		return nil, err
 	}
 	if err := e.resolveMonitors(); err != nil {
+		return nil, err
+	}
+	if err := e.resolveStructInvs(); err != nil {
 		return nil, err
 	}
 	for fn := range ssautil.AllFunctions(prog) {
@@ -308,7 +313,7 @@ func (e *Engine) newFnCtx(fn *ssa.Function, discovery bool, prev *FnCtx) *FnCtx 
 	fc := &FnCtx{eng: e, fn: fn, con: e.contracts[fn.String()], sc: newScript(), sorts: map[string]string{}, oblNames: map[string]int{},
 		discovery: discovery, loopWrites: map[*ssa.BasicBlock]map[string]bool{}, loopCellW: map[*ssa.BasicBlock]map[int]bool{}, loopHavocAll: map[*ssa.BasicBlock]bool{},
 		cellOf: map[string]int{}, cellSeq: map[string]int{}, cellType: map[int]types.Type{}, assumptions: map[string]bool{}, inlined: map[string]bool{}, usedContracts: map[string]bool{},
-		tagTypes: map[int]types.Type{}, poolVals: map[string]bool{}, freshObj: map[string]bool{}, immut: map[string]bool{}, writtenNames: map[string]bool{}, nonNil: map[string]bool{}}
+		tagTypes: map[int]types.Type{}, poolVals: map[string]bool{}, structAssumed: map[string]bool{}, freshObj: map[string]bool{}, immut: map[string]bool{}, writtenNames: map[string]bool{}, nonNil: map[string]bool{}}
 	if fc.con != nil {
 		fc.props = fc.con.Props
 	}
@@ -567,9 +572,7 @@ func (e *Engine) solve(fc *FnCtx) {
 		single, _ := fc.sc.render(e.timeoutMs, map[*Obligation]bool{o: true})
 		var sat bool
 		for si, sv := range solvers {
-			if si == 0 && first != "sat" {
-				continue // already tried, unknown
-			}
+			// (the first back end is retried too: alone in a fresh process it often decides what it gave up on inside the batch)
 			t1 := time.Now()
 			s2 := single
 			if si == 0 || first == "sat" {
@@ -687,4 +690,69 @@ func (e *Engine) makeReplay(fc *FnCtx, o *Obligation, single string, sv solverSp
 	if fc.fn.Pkg != nil {
 		o.ReplayPkg = strings.TrimPrefix(strings.TrimPrefix(fc.fn.Pkg.Pkg.Path(), repoMod), "/")
 	}
+}
+
+// resolveStructInvs parses the clauses and checks mechanically that the
+// first-level fields they mention are stored to only inside the establishing
+// functions (and their closures).
+func (e *Engine) resolveStructInvs() error {
+	for _, si := range e.structInvs {
+		tn, ok := si.Pkg.Scope().Lookup(si.TypeName).(*types.TypeName)
+		if !ok {
+			return fmt.Errorf("structinv: unknown type %s", si.TypeName)
+		}
+		si.rootType = tn.Type()
+		sp, err := parseSpec(si.Clause.Text)
+		if err != nil {
+			return fmt.Errorf("structinv %s: %v", si.TypeName, err)
+		}
+		si.Clause.Expr = sp
+		// fields mentioned directly on self
+		si.fields = map[string]bool{}
+		re := regexp.MustCompile(`\b` + regexp.QuoteMeta(si.Self) + `\.([A-Za-z_][A-Za-z0-9_]*)`)
+		for _, m := range re.FindAllStringSubmatch(si.Clause.Text, -1) {
+			si.fields[m[1]] = true
+		}
+		allowed := map[string]bool{}
+		for _, f := range si.Established {
+			allowed[f] = true
+		}
+		for _, fn := range e.funcs {
+			top := fn
+			for top.Parent() != nil {
+				top = top.Parent()
+			}
+			if top.Pkg == nil || top.Pkg.Pkg != si.Pkg || allowed[top.Name()] {
+				continue
+			}
+			for _, b := range fn.Blocks {
+				for _, ins := range b.Instrs {
+					st, ok := ins.(*ssa.Store)
+					if !ok {
+						continue
+					}
+					// walk the chain of field/index addresses down to the one rooted at a *T
+					var cur ssa.Value = st.Addr
+					fname := ""
+					for cur != nil {
+						switch a := cur.(type) {
+						case *ssa.FieldAddr:
+							if pt, ok := a.X.Type().Underlying().(*types.Pointer); ok && types.Identical(pt.Elem(), si.rootType) {
+								fname = structOf(pt.Elem()).Field(a.Field).Name()
+							}
+							cur = a.X
+						case *ssa.IndexAddr:
+							cur = a.X
+						default:
+							cur = nil
+						}
+					}
+					if fname != "" && si.fields[fname] {
+						return fmt.Errorf("structinv %s: field %s is written in %s, which is not listed as establishing it", si.TypeName, fname, fn)
+					}
+				}
+			}
+		}
+	}
+	return nil
 }
